@@ -169,4 +169,28 @@ theorem scan_da_order (drift : Nat) (da : Nat → Fetch) (max lastDA fuel next s
               · intro h; simp at h
               · intro _; rfl
 
+theorem daItems_add (da : Nat → Fetch) (lo a b : Nat) :
+    daItems da lo (a + b) = daItems da lo a ++ daItems da (lo + a) b := by
+  induction a generalizing lo with
+  | zero => simp [daItems]
+  | succ a ih =>
+    have e : a + 1 + b = (a + b) + 1 := by omega
+    rw [e]
+    simp only [daItems, List.append_assoc]
+    rw [ih]
+    have e2 : lo + 1 + a = lo + (a + 1) := by omega
+    rw [e2]
+
+theorem daStart_le_pos (cfg : Cfg) (s : St) : cfg.daStart ≤ persistedPos cfg s := by
+  unfold persistedPos; split <;> (try split) <;> omega
+
+theorem pos_of_scanP (cfg : Cfg) (s : St) (v : Nat) (h : s.scanP = some v) (hv : cfg.daStart ≤ v) :
+    persistedPos cfg s = v := by
+  unfold persistedPos
+  rw [h]
+  simp only
+  split
+  · rfl
+  · omega
+
 end Based
